@@ -148,6 +148,12 @@ def _run(case, env):
                          case.get("prepack"))
     if case.get("junk"):
         cc.write_junk(t0)
+    if case.get("obsolete_dir"):
+        cc.vary_obsolete_dir(t0, case["obsolete_dir"])
+    if case["op"]["op"] == "resume-commit":
+        case = dict(case, op=dict(case["op"], tokens=cc.suspend_groups(
+            t0, src.repository, n0, case["op"]["chunks"], total_src),
+            n=sum(case["op"]["chunks"])))
     old = frozenset(cc.rid(i) for i in range(n0))
     tip = cc.rid(n0 - 1) if n0 else b"null:"
     revs, tip, _ = cc.verify(t0, [(old, frozenset([tip]))], models,
@@ -194,6 +200,10 @@ def _run(case, env):
             l[2].endswith(".autopack") for l in log)
         touched = False
         recovery = case.get("recovery", "commit")
+        if op["op"] == "resume-commit":
+            # a crash may have consumed the suspended packs: the tokens are
+            # then legitimately gone, the next writer is a fresh commit
+            recovery = "commit"
         for k in range(n + 1):
             points = [("before", None)] if k < n else [("done", None)]
             if k < n and log[k][1] in ft.NON_ATOMIC:
@@ -331,9 +341,44 @@ MINIMAL = {"format": "2a", "op": {"op": "commit"}, "packs": [],
            "recovery": "commit", "nfiles": 1, "sizes": [30]}
 
 
+@st.composite
+def scenario2(draw, tier):
+    """Operations and pre-state variants the first kind does not draw: the
+    commit of a resumed (suspended) write group of 1-2 packs, pack() with a
+    hint, obsolete_packs/ missing or already holding a live pack's files."""
+    fmt = draw(st.sampled_from(FORMATS))
+    npacks = draw(st.integers(2, 6 if tier == "quick" else 12))
+    packs = [draw(st.integers(1, 3)) for _ in range(npacks)]
+    k = draw(st.sampled_from(["resume-commit", "resume-commit", "pack-hint",
+                              "pack-clean", "commit"]))
+    if k == "resume-commit":
+        # (the simplest example - the one every shard starts with - has two
+        # suspended packs)
+        op = {"op": k, "chunks": draw(st.sampled_from(
+            [[1, 1], [2, 1], [1], [1, 2], [1, 1, 1]]))}
+    elif k == "pack-hint":
+        # at least two DIFFERENT packs: re-packing a single knit pack
+        # reproduces it bit for bit (same content-hash name) and is refused
+        # with "Pack ... already exists"
+        op = {"op": k, "hint": draw(st.lists(st.integers(0, npacks - 1),
+                                             min_size=2, max_size=4,
+                                             unique=True))}
+    else:
+        op = {"op": k}
+    return {"format": fmt, "op": op, "packs": packs, "prepack": None,
+            "junk": draw(st.booleans()), "earlier": None,
+            "obsolete_dir": draw(st.sampled_from([None, "missing", "copy"])),
+            "recovery": "commit", "nfiles": draw(st.integers(1, 2)),
+            "sizes": [draw(st.sampled_from([30, 300]))]}
+
+
 def kinds(tier):
     return [
         Kind("crash-enumeration", run, strategy=scenario(tier),
              examples={"quick": 24, "thorough": 1000},
+             shrink_s={"quick": 60, "thorough": 600}),
+        Kind("resumed-groups-hints-obsolete-dir", run,
+             strategy=scenario2(tier),
+             examples={"quick": 16, "thorough": 300},
              shrink_s={"quick": 60, "thorough": 600}),
     ]
